@@ -230,13 +230,13 @@ structure SetLaws (E : Env) : Prop where
   equiv_ok : ∀ t a b, (∃ r, E.equiv t a b = .ok r) ∨ E.equiv t a b = .unmodelled
 
 /-- the simplest environment satisfying the laws: types unify only when they are all
-the same; every member hashes to bucket 0 and members are equivalent when identical -/
+the same; every member hashes to bucket 0 and no two members are equivalent -/
 def Env.simple : Env :=
   { unify := fun _ ts => match ts with
       | [] => none
       | t :: rest => if rest.all (fun x => x.equals t) then some t else none
     hash := fun _ _ => .ok 0
-    equiv := fun _ a b => .ok (a == b)
+    equiv := fun _ _ _ => .ok false
     less := fun _ _ _ => false }
 
 end Convert
